@@ -219,14 +219,7 @@ def clause_refusal_leaves_state(prog, rep):
             if c.name not in MUTATORS or last_seg(c.self_adt) not in CONTAINERS or "to" not in c.t or not c.args or "p" not in c.args[0]:
                 continue
             # the receiver is one of the storage's maps (a field of the locked inner state), not a local collection
-            flds = [e for e in c.args[0]["p"][1:] if isinstance(e, str) and e.startswith(".")]
-            dep, _, _ = f.depends_on(c.args[0]["p"][0])
-            for l in dep:
-                for bb, kind, x in f.defs().get(l, []):
-                    if kind == "stmt":
-                        for o in x.get("o", []):
-                            if "p" in o:
-                                flds += [e for e in o["p"][1:] if isinstance(e, str) and e.startswith(".")]
+            flds = [e for e in c.args[0]["p"][1:] if isinstance(e, str) and e.startswith(".")] + ["." + x for x in A.receiver_fields(f, c.args[0]["p"][0])]
             if any(e.endswith("_cache") or e in (".snapshots", ".group_snapshots") for e in flds):
                 muts.append(c)
         if not muts:
